@@ -548,24 +548,55 @@ def opTok : FsOp → String
   | .rename a b p => s!"RN:{nameTok a}:{nameTok b}:{polTok p}"
   | .link a b p => s!"LN:{nameTok a}:{nameTok b}:{polTok p}"
 
+/-- step without its error policy (what the behaviour-level discovery can see) -/
+def kindTok : FsOp → String
+  | .write n _ => s!"W:{nameTok n}"
+  | .remove n _ => s!"RM:{nameTok n}"
+  | .rename a b _ => s!"RN:{nameTok a}:{nameTok b}"
+  | .link a b _ => s!"LN:{nameTok a}:{nameTok b}"
+
+/-- The F line.  Primary tie (`dyn …`): the steps one real `saveState` was OBSERVED to take (directory
+photographed at every crash site), the keys it inserted, the probe tags it did / did not write — compared
+with `saveOps`, `saveAdds`, `noSave`.  Secondary (`static ok …`): the go/ast reading of the source, compared
+in full (error policies, no-publish set) when it recognises the code; `static unrecognised` is only a tag. -/
 def runF (ts : List String) : Verdict :=
-  let p : P (List String × List String × List String × List String) := do
-    P.kw "OUT"
-    P.kw "ops"; let ops ← P.list P.tok
-    P.kw "nopub"; let np ← P.list P.tok
-    P.kw "nosave"; let ns ← P.list P.tok
+  let pdyn : P (List String × List String × List String × List String) := do
+    P.kw "OUT"; P.kw "dyn"; P.kw "steps"; let steps ← P.list P.tok
+    P.kw "sites"; let _ ← P.list (do let s ← P.tok; let _ ← P.nat; pure s)
     P.kw "adds"; let ad ← P.list P.tok
-    pure (ops, np, ns, ad)
-  match P.run p ts with
-  | .error e => .diff s!"facts: the source reader no longer recognises saveState / the tag sets ({e}; line: {" ".intercalate ts})"
-  | .ok (ops, np, ns, ad) =>
-    let steps := ops.filter (fun t => !t.startsWith "P:")
-    if steps != saveOps.map opTok then
-      .diff s!"facts: file-system steps of saveState: code=[{" ".intercalate steps}] model=[{" ".intercalate (saveOps.map opTok)}]"
-    else if np != noPublish then .diff s!"facts: no-publish set: code=[{" ".intercalate np}] model=[{" ".intercalate noPublish}]"
-    else if ns != noSave then .diff s!"facts: no-save set: code=[{" ".intercalate ns}] model=[{" ".intercalate noSave}]"
-    else if ad != saveAdds then .diff s!"facts: keys inserted by saveState: code=[{" ".intercalate ad}] model=[{" ".intercalate saveAdds}]"
-    else .ok ["F"]
+    P.kw "notsaved"; let ns ← P.list P.tok
+    P.kw "saved"; let sv ← P.list P.tok
+    pure (steps, ad, ns, sv)
+  let pstat : P (Option (List String × List String × List String × List String)) := do
+    P.kw "static"
+    let k ← P.tok
+    if k == "ok" then
+      P.kw "ops"; let ops ← P.list P.tok
+      P.kw "nopub"; let np ← P.list P.tok
+      P.kw "nosave"; let ns ← P.list P.tok
+      P.kw "adds"; let ad ← P.list P.tok
+      pure (some (ops, np, ns, ad))
+    else pure none
+  match (do let d ← pdyn; let st ← pstat; pure (d, st) : P _) ts with
+  | .error e => .diff s!"facts: the behaviour-level discovery of saveState's steps failed ({e}; line: {" ".intercalate ts})"
+  | .ok (((steps, ad, ns, sv), st), _) =>
+    if steps != saveOps.map kindTok then
+      .diff s!"facts: file-system steps observed in a real saveState: code=[{" ".intercalate steps}] model=[{" ".intercalate (saveOps.map kindTok)}]"
+    else if ad != saveAdds then .diff s!"facts: keys inserted by saveState (observed): code=[{" ".intercalate ad}] model=[{" ".intercalate saveAdds}]"
+    else if ns.any (fun k => !noSave.contains k) then
+      .diff s!"facts: a save did not write probe topic(s) [{" ".intercalate (ns.filter fun k => !noSave.contains k)}] that the model's no-save list does not contain"
+    else if sv.any (fun k => noSave.contains k) then
+      .diff s!"facts: a save wrote probe topic(s) [{" ".intercalate (sv.filter fun k => noSave.contains k)}] that are on the model's no-save list"
+    else match st with
+    | none => .ok ["F", "dynamic-steps", "static-reader-unrecognised"]
+    | some (ops, np, nsS, adS) =>
+      let stepsS := ops.filter (fun t => !t.startsWith "P:")
+      if stepsS != saveOps.map opTok then
+        .diff s!"facts: file-system steps of saveState as read from the source: code=[{" ".intercalate stepsS}] model=[{" ".intercalate (saveOps.map opTok)}]"
+      else if np != noPublish then .diff s!"facts: no-publish set: code=[{" ".intercalate np}] model=[{" ".intercalate noPublish}]"
+      else if nsS != noSave then .diff s!"facts: no-save set: code=[{" ".intercalate nsS}] model=[{" ".intercalate noSave}]"
+      else if adS != saveAdds then .diff s!"facts: keys inserted by saveState: code=[{" ".intercalate adS}] model=[{" ".intercalate saveAdds}]"
+      else .ok ["F", "dynamic-steps", "static-reader-agrees"]
 
 def crashedOut : List String → Option String
   | [] => none
